@@ -56,6 +56,14 @@ def main():
     try:
         patch = os.path.join(src, "patch.diff")
         rc, out = sh(["git", "apply", patch], cwd=wt)
+        if rc != 0:   # /repo HEAD has moved since the patch was written (fix: commits): fall back to a 3-way merge
+            rc, out = sh(["git", "apply", "--3way", patch], cwd=wt)
+            sh(["git", "reset", "-q"], cwd=wt)
+            # from here on the patch is re-taken from the worktree so that apply -R works
+            if rc == 0:
+                patch2 = os.path.join(src, "patch.rebased.diff")
+                open(patch2, "w").write(sh(["git", "diff"], cwd=wt)[1])
+                patch = patch2
         assert rc == 0, "patch does not apply: " + out
         rc, out = sh("go build ./...", cwd=wt)
         res["ran"].append("go build ./... with patch: rc=%d" % rc)
